@@ -543,6 +543,30 @@ pub fn run_c12(tier: &str, sink: &Sink) -> BOut {
             }
         }
     }
+    // longer identifier lists (4 to 6 identifiers of mixed kinds), in prerelease and build position
+    {
+        let ids4 = ["0", "1", "10", "a", "a-", "B2", "-"];
+        let mut lists4: Vec<String> = vec![];
+        for a in ids4 {
+            for b in ids4 {
+                for c2 in ids4 {
+                    for d in ids4 {
+                        lists4.push(format!("{}.{}.{}.{}", a, b, c2, d));
+                    }
+                }
+            }
+        }
+        for (k, l) in lists4.iter().enumerate() {
+            check_c12_value(&verb(1, 2, 3, l, ""), "built", sink);
+            check_c12_value(&verb(1, 2, 3, "", l), "built", sink);
+            combos += 2;
+            if k % 7 == 0 {
+                let other = &lists4[(k * 31 + 5) % lists4.len()];
+                check_c12_value(&verb(0, 0, 1, &format!("{}.x.{}", l, other), &format!("{}.9", other)), "built", sink);
+                combos += 1;
+            }
+        }
+    }
     // mid-range numbers (type edges) with a few tag/build shapes
     for n in [9u64, 10, 255, 256, 65536, 4294967295, 4294967296, 281474976710656] {
         for (a, b, c2) in [(n, n, n), (n, 0, 1), (0, n, 1), (1, 0, n)] {
